@@ -153,6 +153,12 @@ func apply(col *resource.Collection, w wop) error {
 
 // body runs one (predicate, history, backpressure, subscribe position) case; failures go to report.
 func body(p pred, hist []wop, backpressure bool, subAfter int, report func(k, m string)) func() {
+	return bodyM(p, hist, backpressure, subAfter, false, report)
+}
+
+// bodyM: masked = the Pull also carries a read mask that hides the field the predicate looks at. The predicate
+// speaks about the ITEM, not about what this subscriber is shown of it: membership must not change.
+func bodyM(p pred, hist []wop, backpressure bool, subAfter int, masked bool, report func(k, m string)) func() {
 	return func() {
 		col := resource.NewCollection()
 		ctx, cancel := context.WithCancel(context.Background())
@@ -161,7 +167,11 @@ func body(p pred, hist []wop, backpressure bool, subAfter int, report func(k, m 
 		view := map[string]int{}
 		subscribe := func() string {
 			seedWant := listStr(col, p)
-			ch := col.Pull(ctx, resource.WithInclude(p.fn()), resource.WithBackpressure(backpressure))
+			popts := []resource.ReadOption{resource.WithInclude(p.fn()), resource.WithBackpressure(backpressure)}
+			if masked {
+				popts = append(popts, resource.WithReadPaths(&T{}, "default_string"))
+			}
+			ch := col.Pull(ctx, popts...)
 			go func() {
 				for e := range ch {
 					x := ev{e.ChangeType.String(), e.Id, vOf(e.OldValue), vOf(e.NewValue)}
@@ -179,7 +189,23 @@ func body(p pred, hist []wop, backpressure bool, subAfter int, report func(k, m 
 			var parts []string
 			for _, id := range []string{"a", "b"} {
 				if v, ok := view[id]; ok {
-					parts = append(parts, fmt.Sprintf("%s=%d", id, v))
+					if masked {
+						parts = append(parts, id) // the value is hidden from this subscriber: membership only
+					} else {
+						parts = append(parts, fmt.Sprintf("%s=%d", id, v))
+					}
+				}
+			}
+			return strings.Join(parts, ",")
+		}
+		listStr := func(col *resource.Collection, p pred) string {
+			if !masked {
+				return listStr(col, p)
+			}
+			var parts []string
+			for _, id := range []string{"a", "b"} {
+				if m, ok := col.Get(id); ok && p.holds(id, vOf(m)) {
+					parts = append(parts, id)
 				}
 			}
 			return strings.Join(parts, ",")
@@ -243,7 +269,7 @@ func body(p pred, hist []wop, backpressure bool, subAfter int, report func(k, m 
 			report("list", fmt.Sprintf("List(WithInclude) gives [%s], the filtered collection is [%s]", rl, strings.Join(wl, ",")))
 			return
 		}
-		if backpressure && noAbsent {
+		if backpressure && noAbsent && !masked {
 			// per-event decision table (seed events excluded)
 			var nonSeed []ev
 			seeds := 0
@@ -277,15 +303,16 @@ func body(p pred, hist []wop, backpressure bool, subAfter int, report func(k, m 
 }
 
 type bcase struct {
-	P    int
-	H    []wop
-	BP   bool
-	SubA int
+	P      int
+	H      []wop
+	BP     bool
+	Masked bool
+	SubA   int
 }
 
 func runSeq(c bcase) (string, string) {
 	var fk, fm string
-	res := verifrt.RunOnce(nil, false, body(pred(c.P), c.H, c.BP, c.SubA, func(k, m string) {
+	res := verifrt.RunOnce(nil, false, bodyM(pred(c.P), c.H, c.BP, c.SubA, c.Masked, func(k, m string) {
 		if fk == "" {
 			fk, fm = k, m
 		}
@@ -442,6 +469,16 @@ func main() {
 					s.Trans(len(hist))
 					if k, m := runSeq(c); k != "" {
 						s.Fail(fmt.Sprintf("%s %v %v sub=%d", k, pred(p), hist, sub), m, c)
+					}
+					if sub == 0 && (p%3 == 0 || s.Thorough) {
+						// the same history once more with a read mask that hides what the predicate reads
+						cm := c
+						cm.Masked = true
+						s.Eval(1)
+						s.Trans(len(hist))
+						if k, m := runSeq(cm); k != "" {
+							s.Fail(fmt.Sprintf("%s(masked) %v %v sub=%d", k, pred(p), hist, sub), m, cm)
+						}
 					}
 					s.State(fmt.Sprint(p, hist, sub))
 					if len(hist) > 1 {
